@@ -50,9 +50,11 @@ void replayEvents(const Msg& req, FormatterListener& fl, size_t* nEvents)
             fl.startElement(nm.c_str(), attrs);
         }
         else if (k == "EE") { XalanDOMString nm = dom(v); fl.endElement(nm.c_str()); }
-        else if (k == "CH") { XalanDOMString s = dom(v); fl.characters(s.c_str(), s.length()); }
+        // CH / CD are (pointer, length) interfaces: pass a slice of a longer buffer whose tail is hostile,
+        // so that a serializer reading past 'length' becomes observable
+        else if (k == "CH") { XalanDOMString s = dom(v + "]]>&<"); fl.characters(s.c_str(), s.length() - 5); }
         else if (k == "CR") { XalanDOMString s = dom(v); fl.charactersRaw(s.c_str(), s.length()); }
-        else if (k == "CD") { XalanDOMString s = dom(v); fl.cdata(s.c_str(), s.length()); }
+        else if (k == "CD") { XalanDOMString s = dom(v + "]]>&<"); fl.cdata(s.c_str(), s.length() - 5); }
         else if (k == "IW") { XalanDOMString s = dom(v); fl.ignorableWhitespace(s.c_str(), s.length()); }
         else if (k == "CM") { XalanDOMString s = dom(v); fl.comment(s.c_str()); }
         else if (k == "ER") { XalanDOMString s = dom(v); fl.entityReference(s.c_str()); }
